@@ -409,6 +409,10 @@ func runC08(c *core.Ctx, res *core.Result) {
 		c08Retired(c, res)
 		return
 	}
+	if c.Idx%24 == 11 {
+		c08RetentionAtAck(c, res)
+		return
+	}
 	switch c.Idx % 6 {
 	case 0, 1, 2:
 		c08Sequential(c, res)
@@ -756,4 +760,69 @@ func c08Retired(c *core.Ctx, res *core.Result) {
 	}
 	res.Sig = core.Sig("retired", cfg.String(), n)
 	res.Nontrivial = true
+}
+
+// c08RetentionAtAck: the log retention a replication primary runs after an acknowledgement
+// (WAL.ManageRetention{MinSequenceKeep: acknowledged sequence}) on the running engine, with the
+// acknowledged sequence on or next to the last sequence of a rotated log file, then a clean restart:
+// every entry from MinSequenceKeep on must still be in the log and the counter must continue above it.
+func c08RetentionAtAck(c *core.Ctx, res *core.Result) {
+	r := c.Rand
+	cfg := kv.Cfg{MemTableSize: 32 << 20, MaxMemTables: 4, SyncMode: r.Intn(3), CompactSecs: 3600}
+	dir := filepath.Join(c.Dir, "db")
+	eng, err := kv.Open(dir, cfg)
+	if err != nil {
+		res.Violate("open_error", err.Error(), nil)
+		return
+	}
+	rounds := r.Range(1, 4)
+	var lastOfFile []uint64 // last sequence written before each rotation
+	for i := 0; i < rounds; i++ {
+		for j := r.Range(1, 12); j > 0; j-- {
+			eng.Put([]byte(fmt.Sprintf("k%02d", r.Intn(8))), []byte(fmt.Sprintf("v%d.%d", i, j)))
+		}
+		eng.FlushImMemTables() // rotates the log
+		lastOfFile = append(lastOfFile, eng.GetWAL().GetNextSequence()-1)
+	}
+	tail := r.Chance(40)
+	if tail {
+		eng.Put([]byte("tail"), []byte("in the current file"))
+	}
+	before := eng.GetWAL().GetNextSequence() - 1
+	ack := lastOfFile[r.Intn(len(lastOfFile))] + uint64(r.Range(-1, 1))
+	if r.Chance(40) {
+		ack = lastOfFile[len(lastOfFile)-1] // everything in the rotated files is acknowledged
+	}
+	deleted, rerr := eng.GetWAL().ManageRetention(wal.WALRetentionConfig{MinSequenceKeep: ack})
+	eng.Close()
+	desc := fmt.Sprintf("%d rotations (last sequences %v), write in the current file=%v, last sequence %d; ManageRetention{MinSequenceKeep: %d} deleted %d files (err %v); clean restart", rounds, lastOfFile, tail, before, ack, deleted, rerr)
+	feat := map[string]string{"mode": "retention_at_ack"}
+	// every entry from the acknowledged sequence on is still in the log
+	have := map[uint64]bool{}
+	wal.ReplayWALDir(filepath.Join(dir, "wal"), func(e *wal.Entry) error { have[e.SequenceNumber] = true; return nil })
+	for s := ack; s <= before && s > 0; s++ {
+		if !have[s] {
+			res.Violate("retention_removed_needed_entry", fmt.Sprintf("%s: sequence %d (>= MinSequenceKeep) is no longer in any log file", desc, s), feat)
+			return
+		}
+	}
+	eng, err = kv.Open(dir, cfg)
+	if err != nil {
+		res.Violate("open_error", err.Error(), nil)
+		return
+	}
+	defer eng.Close()
+	eng.Put([]byte("after"), []byte("restart"))
+	next := eng.GetWAL().GetNextSequence() - 1
+	res.Count("retention_at_ack_restarts", 1)
+	res.Count("log_files_retired_online", int64(deleted))
+	if next <= before {
+		if len(have) == 0 && ack > before {
+			// everything was acknowledged and legitimately retired: no entry is left to recover the counter from (D36)
+			feat = map[string]string{"mode": "retired", "log_fully_retired_before_restart": "true", "via": "online_retention"}
+		}
+		res.Violate("sequence_regression", fmt.Sprintf("%s: the next write is stamped %d", desc, next), feat)
+	}
+	res.Sig = core.Sig("retention_at_ack", rounds, tail, ack, before)
+	res.Nontrivial = deleted > 0 || ack == lastOfFile[len(lastOfFile)-1]
 }
